@@ -206,6 +206,7 @@ package proto
 
 //@ func (*Array).NextString
 //@ assigns array.index
+//@ ensures old(array.index) <= array.index && array.index <= old(array.index) + 1
 //@ ensures old(array.index) >= len(array.msgs) ==> err == ErrEOM && array.index == old(array.index)
 //@ ensures old(array.index) <  len(array.msgs) ==> array.index == old(array.index) + 1
 //@ ensures err == ErrEOM <==> (old(array.index) >= len(array.msgs) || old(array.msgs[array.index]) == nil)
@@ -217,6 +218,7 @@ package proto
 
 //@ func (*Array).NextInteger
 //@ assigns array.index
+//@ ensures old(array.index) <= array.index && array.index <= old(array.index) + 1
 //@ ensures old(array.index) >= len(array.msgs) ==> err == ErrEOM && array.index == old(array.index)
 //@ ensures old(array.index) <  len(array.msgs) ==> array.index == old(array.index) + 1
 //@ ensures err == ErrEOM <==> (old(array.index) >= len(array.msgs) || old(array.msgs[array.index]) == nil)
@@ -302,6 +304,7 @@ package proto
 //@   decreases arraySize - n
 
 //@ func (*Parser).Next
+//@ defines requests: old(requests) + ((result0 != nil && err == nil) ? 1 : 0)
 //@ requires parser.reader != nil
 //@ requires 0 <= S_pos && S_pos <= S_end && S_end <= 17592186044416
 //@ assigns S_pos
